@@ -2,6 +2,7 @@ package main
 
 import (
 	"fmt"
+	"math"
 	"regexp"
 	"sort"
 	"strings"
@@ -304,7 +305,7 @@ func (e *fEval) eval(f *btpb.RowFilter, key string, cells []OCell) []OCell {
 		}
 		out := make([]OCell, len(cells))
 		for i, c := range cells {
-			out[i] = OCell{Fam: c.Fam, Qual: c.Qual, Ts: c.Ts, Labels: nil}
+			out[i] = OCell{Fam: c.Fam, Qual: c.Qual, Ts: c.Ts, Labels: c.Labels} // the value goes, a label attached earlier stays
 		}
 		return out
 	case *btpb.RowFilter_ApplyLabelTransformer:
@@ -713,7 +714,7 @@ func (g *filterGen) leaf(d0 *draws, kind int, countSensitiveOK bool) *btpb.RowFi
 			g.nSamples++
 			p := []float64{0.5, 0.01, 0.99}[d.n(3)]
 			if inv {
-				p = []float64{0, 1, -0.5, 1.5}[d.n(4)]
+				p = []float64{0, 1, -0.5, 1.5, math.NaN()}[d.n(5)]
 			}
 			return &btpb.RowFilter{Filter: &btpb.RowFilter_RowSampleFilter{RowSampleFilter: p}}
 		}
@@ -757,7 +758,7 @@ func (g *filterGen) tree(d *draws, depth int, csOK bool) *btpb.RowFilter {
 		labelled := false
 		for i := 0; i < n; i++ {
 			s := g.tree(d, depth+1, ok)
-			if labelled && (hasLabel(s) || hasStrip(s)) {
+			if labelled && hasLabel(s) { // a strip after a label is fine: the value goes, the label stays
 				// at most one label on a path; what strip_value does to a label is unspecified
 				s = &btpb.RowFilter{Filter: &btpb.RowFilter_PassAllFilter{PassAllFilter: true}}
 			}
